@@ -81,6 +81,14 @@ theorem C01_run_length (env : Env) (cfg : Config) (enc : Name) (calls : List Wri
       simp only [expectedFrom, List.length_cons, ih]
   simp only [expectedRecords, List.length_cons, key]
 
+/-- **An accepted preamble call had a non-negative indent.** The `indentOk` law of
+`PreambleLaws` (`indent` is `None` or `≥ 0`) is implied by acceptance: the writer rejects a
+negative preamble indent. -/
+theorem C01_accepted_indent_nonneg (env : Env) (cfg : Config) (st : Writer.St) (text : Writer.Arg)
+    (enc : Option Name) (n : Int) (le : Option Text) (mime : Option Text)
+    (hok : (Writer.step env cfg st (.preamble text enc (some n) le mime)).2 = .ok) : 0 ≤ n :=
+  Writer.step_preamble_ok_indent_nonneg env cfg st text enc n le mime hok
+
 /-! ## Non-vacuity: a concrete program, its laws, and the conclusion as a closed true equation -/
 
 /-- `asciiEnv` with JSON functions for which the JSON laws hold: every dict dumps to `{}`,
